@@ -1,6 +1,7 @@
 '''C08 - every written file is structurally valid TRIPOLI-4 input.'''
 from .. import model as M
 from .. import gen_cells, gen_univ, gen_lat, gen_hostile
+from . import c04
 from ..judge import convert_deck
 from ..t4file import RULES
 
@@ -41,10 +42,25 @@ SOURCES = {
     'c06': (gen_lat.build_rect, gen_lat.RECT_FAMILIES),
     'c07': (gen_lat.build_hex, gen_lat.HEX_FAMILIES),
     'hostile': (gen_hostile.build, gen_hostile.FAMILIES),
+    'c04': (None, [f'{att}|{rot}' for att in ('surf-tr', 'trcl-num',
+                                               'trcl-star', 'trcl-pair')
+                   for rot in ('generic', 'flip-x', 'flip-y', 'flip-z',
+                               'quarter', 'permutation')]),
 }
-_PER = {'quick': {'c01': 3, 'c05': 4, 'c06': 3, 'c07': 2, 'hostile': 12},
+
+
+class _Sub:
+    def __init__(self, case, family):
+        self.rng = case.rng
+        self.family = family
+        self.index = case.index
+        self.tier = case.tier
+        self.seed = case.seed
+
+_PER = {'quick': {'c01': 3, 'c05': 4, 'c06': 3, 'c07': 2, 'hostile': 12,
+                  'c04': 4},
         'thorough': {'c01': 150, 'c05': 200, 'c06': 120, 'c07': 100,
-                     'hostile': 500}}
+                     'hostile': 500, 'c04': 150}}
 FLAGS = ['--skip-deduplication', '--skip-compositions', '--skip-geomcomp',
          '--skip-boundary-conditions', '--always-inline-filling',
          '--always-inline-filled']
@@ -68,7 +84,10 @@ def random_options(rng):
 
 def build(case):
     src, fam = case.family.split(':', 1)
-    deck = SOURCES[src][0](case.rng, fam)
+    if src == 'c04':
+        deck = c04.build(_Sub(case, fam))
+    else:
+        deck = SOURCES[src][0](case.rng, fam)
     if case.rng.random() < 0.4:
         # flag some surfaces so that the boundary-condition writer runs
         cands = [s for s in deck.surfs if not s.is_macro]
